@@ -26,7 +26,9 @@ func fastaOf(recs ...string) string {
 }
 
 // c12Scenarios builds the closed systems. n = records per input (2 or 3), t = workers / NumCPU.
-func c12Scenarios(n, t int) []Scenario {
+func c12Scenarios(n, t int) []Scenario { return c12ScenariosX(n, t, false) }
+
+func c12ScenariosX(n, t int, extra bool) []Scenario {
 	var sc []Scenario
 	add := func(name, fam string, c Call) {
 		if c.Threads == 0 {
@@ -110,6 +112,17 @@ func c12Scenarios(n, t int) []Scenario {
 		}
 		add("topranking-push14", "topranking-push", Call{Cmd: "topranking", Query: bq, Target: fastaOf(bt...), Ref: fastaOf("r", "AAAAAAAA"), QType: "fasta", TType: "fasta", DistPush: 2, NCPU: 1})
 	}
+	// option variants of the cheap pipelines (quick and thorough), of the costly ones (thorough only)
+	add("toma-pad-window", "toma", Call{Cmd: "toma", Sam: sam, Pad: true, Start: 2, End: 9, Wrap: 4})
+	add("snps-hardgaps", "snps", Call{Cmd: "snps", Ref: ref, Msa: qonly, HardGaps: true})
+	add("closest-tn93", "closest", Call{Cmd: "closest", Query: fastaOf("qa", "ACGTACGTAAAA"), Target: fastaOf("t0", "ACGTACGTAAAC", "t1", "ACGTACGTAAGA", "t2", "ACGTACGTAAAA"), Measure: "tn93"})
+	add("closestn-dist-only", "closestn", Call{Cmd: "closest", Query: tq, Target: tts, Measure: "snp", HasDist: true, MaxDist: 1})
+	if extra {
+		add("topa-dir-wrap-skipins", "topa-dir", Call{Cmd: "topa", Sam: samIndel, Ref: ref, PairDir: true, Wrap: 5, OmitIns: true})
+		add("samvariants-annoref-append", "samvariants", Call{Cmd: "samvariants", Sam: samIndel, NoRefFile: true, Anno: gb, AnnoSuffix: "gb", AppendSNP: true})
+		add("variants-agg-gff-window", "variants-agg", Call{Cmd: "variants", Msa: msaS, RefID: "ref", Anno: gff2, AnnoSuffix: "gff", Aggregate: true, Threshold: 0.5, Start: 1, End: 6})
+		add("topranking-ff-dist", "topranking", Call{Cmd: "topranking", Query: uq, Target: ut, Ref: uref, QType: "fasta", TType: "fasta", DistAll: 2, Table: true})
+	}
 	add("topranking-ff-table", "topranking", Call{Cmd: "topranking", Query: uq, Target: ut, Ref: uref, QType: "fasta", TType: "fasta", DistPush: 1, Table: true})
 	return sc
 }
@@ -188,7 +201,7 @@ func c12All(tier string) []Scenario {
 		with(c12CSVScenarios(2), func(s *Scenario) string { return "U" })
 		return sc
 	}
-	with(c12Scenarios(2, 2), func(s *Scenario) string {
+	with(c12ScenariosX(2, 2, true), func(s *Scenario) string {
 		if s.Family == "topranking-push" {
 			return "D2M2"
 		}
